@@ -25,6 +25,7 @@ type Job struct {
 	MaxViol   int    `json:"max_viol"`
 	ShrinkS   int    `json:"shrink_s"`
 	ViolProp  string `json:"viol_prop"` // hunting: minimise violations of this property instead of Prop
+	KnownSigs []string `json:"known_sigs"` // signatures listed in known_findings.json: reported, not minimised
 }
 
 type ReplayFile struct {
@@ -76,6 +77,24 @@ func init() {
 		shrink: func(sc any) []any {
 			var out []any
 			for _, c := range ShrinkStore(sc.(*StoreScenario)) {
+				out = append(out, c)
+			}
+			return out
+		},
+	}
+}
+
+func init() {
+	engines["stream"] = engineDef{
+		gen: func(prop string, seed uint64, tier string) any { return GenStream(prop, seed, tier) },
+		decode: func(b []byte) (any, error) {
+			sc := new(StreamScenario)
+			return sc, json.Unmarshal(b, sc)
+		},
+		run: func(t *testing.T, sc any, dump io.Writer) RunResult { return RunStream(t, sc.(*StreamScenario), dump) },
+		shrink: func(sc any) []any {
+			var out []any
+			for _, c := range ShrinkStream(sc.(*StreamScenario)) {
 				out = append(out, c)
 			}
 			return out
@@ -143,16 +162,25 @@ func TestWorker(t *testing.T) {
 			t.Fatal(err)
 		}
 		res := eng.run(t, sc, dump)
-		same := violOf(res, rf.Violation.Prop, rf.Violation.Oracle) != nil
+		same := false
+		for _, v := range res.Violations {
+			if v.Sig() == rf.Violation.Sig() {
+				same = true
+			}
+		}
 		emit(map[string]any{"replay": job.Replay, "reproduced": same, "log_hash": res.LogHash, "want_log_hash": rf.LogHash,
 			"hash_equal": res.LogHash == rf.LogHash, "violations": res.Violations, "harness_err": res.HarnessErr, "summary": res.Summary})
 		return
 	}
 
 	deadline := time.Now().Add(time.Duration(job.BudgetS) * time.Second)
-	nviol := 0
+	seenSig := map[string]bool{}
 	if job.MaxViol == 0 {
-		job.MaxViol = 2
+		job.MaxViol = 6
+	}
+	shrinkEnd := time.Now().Add(time.Duration(job.BudgetS+job.ShrinkS) * time.Second)
+	if job.BudgetS > 0 {
+		deadline = deadline // runs stop at the budget; shrinking may use ShrinkS beyond it
 	}
 	for i := 0; i < job.SeedCount; i++ {
 		if job.BudgetS > 0 && time.Now().After(deadline) {
@@ -169,36 +197,54 @@ func TestWorker(t *testing.T) {
 		if job.ViolProp != "" {
 			vp = job.ViolProp
 		}
-		v := violOf(res, vp, "")
-		if v != nil && res.HarnessErr == "" && nviol < job.MaxViol {
-			nviol++
-			// minimise while the same oracle keeps failing
-			best, bestRes, steps := sc, res, 0
-			shrinkEnd := time.Now().Add(time.Duration(job.ShrinkS) * time.Second)
-			if eng.shrink != nil && job.ShrinkS > 0 {
-				progress := true
-				for progress && time.Now().Before(shrinkEnd) && steps < 200 {
-					progress = false
-					for _, c := range eng.shrink(best) {
-						if time.Now().After(shrinkEnd) {
-							break
+		if res.HarnessErr == "" {
+			for _, v0 := range res.Violations {
+				v := v0
+				if v.Prop != vp || seenSig[v.Sig()] || len(seenSig) >= job.MaxViol {
+					continue
+				}
+				seenSig[v.Sig()] = true
+				known := false
+				for _, k := range job.KnownSigs {
+					if k == v.Sig() {
+						known = true
+					}
+				}
+				// minimise while the same oracle (and facts) keeps failing
+				same := func(r RunResult) *Violation {
+					for i := range r.Violations {
+						if r.Violations[i].Sig() == v.Sig() {
+							return &r.Violations[i]
 						}
-						r2 := eng.run(t, c, nil)
-						steps++
-						if r2.HarnessErr == "" && violOf(r2, v.Prop, v.Oracle) != nil {
-							best, bestRes, progress = c, r2, true
-							break
+					}
+					return nil
+				}
+				best, bestRes, steps := sc, res, 0
+				if eng.shrink != nil && !known && time.Now().Before(shrinkEnd) {
+					progress := true
+					for progress && time.Now().Before(shrinkEnd) && steps < 300 {
+						progress = false
+						for _, c := range eng.shrink(best) {
+							if time.Now().After(shrinkEnd) {
+								break
+							}
+							r2 := eng.run(t, c, nil)
+							steps++
+							if r2.HarnessErr == "" && same(r2) != nil {
+								best, bestRes, progress = c, r2, true
+								break
+							}
 						}
 					}
 				}
-			}
-			bv := violOf(bestRes, v.Prop, v.Oracle)
-			sb, _ := json.Marshal(best)
-			rf := ReplayFile{Engine: job.Engine, Prop: vp, Seed: seed, Violation: *bv, LogHash: bestRes.LogHash, Events: bestRes.Events, Shrunk: steps, Scenario: sb}
-			name := fmt.Sprintf("%s/%s-%s-%d-%s.json", job.ReplayDir, vp, job.Engine, seed, strings.ReplaceAll(bv.Oracle, "/", "_"))
-			fb, _ := json.MarshalIndent(rf, "", " ")
-			if err := os.WriteFile(name, fb, 0o644); err == nil {
-				res.Summary += " replay=" + name
+				bv := same(bestRes)
+				sb, _ := json.Marshal(best)
+				rf := ReplayFile{Engine: job.Engine, Prop: vp, Seed: seed, Violation: *bv, LogHash: bestRes.LogHash, Events: bestRes.Events, Shrunk: steps, Scenario: sb}
+				name := fmt.Sprintf("%s/%s-%s-%d-%s-%s.json", job.ReplayDir, vp, job.Engine, seed, strings.ReplaceAll(bv.Oracle, "/", "_"), strings.ReplaceAll(bv.Facts, "/", "_"))
+				fb, _ := json.MarshalIndent(rf, "", " ")
+				if err := os.WriteFile(name, fb, 0o644); err == nil {
+					res.Replays = append(res.Replays, name)
+				}
 			}
 		}
 		emit(res)
